@@ -30,7 +30,9 @@
                        8 appending to this result changed no result (itself included when it moved)
                        16 the appended slice holds result ++ suffix
                 moved  append returned a different pointer (1/0); -1 for strings
-             (1 typeid)               protocol exception without a cause
+             (1 typeid [twin])        protocol exception without a cause; buffer reader: twin = 1 when the same
+                                      input under the OPPOSITE SetSpanCache setting returned the same
+                                      (no value, reported length, error value)
              (2 code)                 stream: error of the underlying reader, wrapped (20 EOF, 21 injected, 22 no progress)
              (9)                      fixture op
      post    (reads)
@@ -207,6 +209,7 @@ Definition out_agree (m : mout) (i : cval) : bool :=
       (ln =? ln') && (cp =? cp') && (l =? l') &&
       (moved' =? (if isbin then (if cp <? ln + 2 then 1 else 0) else -1))
   | MErrP t, L [I 1; I t'] => t =? t'
+  | MErrP t, L [I 1; I t'; I _] => t =? t'
   | MErrS e, L [I 2; I e'] => e =? e'
   | MPreset, L [I 9] => true
   | _, _ => false
@@ -249,6 +252,7 @@ Definition out_spec (sizes : list Z) (o : cval) : bool :=
      else (cp =? ln) && (0 <=? cls) && (0 <=? ord) && (0 <=? off) &&
           match nth_error sizes (Z.to_nat cls) with Some sz => off + cp <=? sz | None => false end)
   | L [I 1; I _] | L [I 2; I _] | L [I 9] => true
+  | L [I 1; I _; I twin] => twin =? 1        (* identical under both allocator settings *)
   | _ => false
   end.
 
